@@ -104,17 +104,21 @@ def run_case(case):
     n = 0
     if fam == "krylov":
         outs = []
-        for p, e in itertools.product(PRECS, EXTRA):
+        # every configuration is built three times in this process (a history, not a single call: the safeguard must hold for EVERY
+        # construction, e.g. a sweep over max_bond_dim with the same tolerances)
+        for (p, e), rep in itertools.product(itertools.product(PRECS, EXTRA), range(3)):
             n += 1
-            cfg = m.MPSConfig(precision=p, extra_krylov_tolerance=e, **quiet)
+            extra_kw = {} if rep < 2 else {"max_bond_dim": 17}
+            cfg = m.MPSConfig(precision=p, extra_krylov_tolerance=e, **extra_kw, **quiet)
             eff = cfg.precision * cfg.extra_krylov_tolerance
             if not eff >= 1e-12 * (1 - 1e-12):
-                return result(False, sig="krylov-tolerance-floor", msg=f"precision={p}, extra_krylov_tolerance={e}: effective tolerance {eff} < 1e-12", outcome="viol")
+                return result(False, sig="krylov-tolerance-floor", msg=f"precision={p}, extra_krylov_tolerance={e} (construction #{rep + 1} with these values in this process): effective tolerance {eff} < 1e-12", outcome="viol")
             if p * e >= 1e-12 and cfg.extra_krylov_tolerance != e:
                 return result(False, sig="krylov-tolerance-changed", msg=f"precision={p}, extra={e} (product above the floor) but extra_krylov_tolerance became {cfg.extra_krylov_tolerance}", outcome="viol")
             if cfg.precision != p:
                 return result(False, sig="precision-changed", msg=f"precision {p} -> {cfg.precision}", outcome="viol")
-            outs.append(round(math.log10(eff), 3))
+            if rep == 0:
+                outs.append(round(math.log10(eff), 3))
         return result(True, outcome=outs, states=n, transitions=n)
     if fam == "autosave":
         outs = []
